@@ -401,6 +401,23 @@ struct TrackedValue : Po::Value {
 	bool doParse(const std::string&, const std::string&) { return true; }
 	size_t id;
 };
+// A "ParsedValues" container of part B: the object the client fills through ParsedValues::add plus the RESULTS of real parser runs it keeps
+// (each result is a ParsedValues built inside the library: its handles were made by CommandLineParser / DefaultContext::addValue).
+struct PVBox {
+	Po::ParsedValues base;
+	std::vector<Po::ParsedValues*> kept;
+	explicit PVBox(const Po::OptionContext& d) : base(d) {}
+	~PVBox() {
+		// results go away in an order that depends on their number (both directions occur)
+		if (kept.size() % 2) { for (size_t i = kept.size(); i--;) delete kept[i]; }
+		else                 { for (size_t i = 0; i != kept.size(); ++i) delete kept[i]; }
+	}
+	ll size() const {
+		ll n = (ll)std::distance(base.begin(), base.end());
+		for (size_t i = 0; i != kept.size(); ++i) n += (ll)std::distance(kept[i]->begin(), kept[i]->end());
+		return n;
+	}
+};
 struct B {
 	std::vector<Po::Option*> raw;
 	std::vector<Po::SharedOptPtr*> p;
@@ -414,27 +431,103 @@ struct B {
 	void* makeCont(ll c) {
 		switch (c % 3) {
 			case 0: return new Po::OptionGroup("grp");
-			case 1: return new Po::ParsedValues(dummy);
+			case 1: return new PVBox(dummy);
 			default: return new Po::OptionContext("ctx");
 		}
 	}
 	void dropCont(ll c) {
 		switch (c % 3) {
 			case 0: delete static_cast<Po::OptionGroup*>(cont[(size_t)c]); break;
-			case 1: delete static_cast<Po::ParsedValues*>(cont[(size_t)c]); break;
+			case 1: delete static_cast<PVBox*>(cont[(size_t)c]); break;
 			default: delete static_cast<Po::OptionContext*>(cont[(size_t)c]); break;
 		}
 	}
 	ll contSize(ll c) {
 		switch (c % 3) {
 			case 0: return (ll)static_cast<Po::OptionGroup*>(cont[(size_t)c])->size();
-			case 1: { Po::ParsedValues* v = static_cast<Po::ParsedValues*>(cont[(size_t)c]); return (ll)std::distance(v->begin(), v->end()); }
+			case 1: return static_cast<PVBox*>(cont[(size_t)c])->size();
 			default: {
 				Po::OptionContext* x = static_cast<Po::OptionContext*>(cont[(size_t)c]);
 				ll n = (ll)x->options_.size();
 				for (size_t g = 0; g != x->groups_.size(); ++g) n += (ll)x->groups_[g].size();
 				return n;
 			}
+		}
+	}
+	// Model op RPush(c, i) on a ParsedValues container = "the container holds one more handle of option *p[i]".  Besides the direct
+	// ParsedValues::add(sp, value) the harness obtains that handle the way an application does: it PARSES a command line that mentions
+	// the option once over a context that has registered it (a context container of the case, or a temporary one) and keeps the
+	// resulting ParsedValues.  Around that parse it runs command lines that must not leave any handle behind: `--no-<name>` for
+	// negatable and non-negatable options, unknown names, ambiguous / unique prefixes, strict (UnknownOption is caught) and with
+	// unregistered options allowed.  Everything temporary is destroyed before the state is dumped, so for a correct library the net
+	// effect is exactly one more holder - the variant is chosen from the case (`sel`), the model does not see it.
+	static void runLine(const std::vector<std::string>& toks, const Po::OptionContext& over, bool allowUnreg, bool asString, Po::ParsedValues** keep) {
+		if (asString) {
+			std::string cmd;
+			for (size_t i = 0; i != toks.size(); ++i) { if (i) cmd += ' '; cmd += toks[i]; }
+			if (keep) *keep = new Po::ParsedValues(Po::parseCommandString(cmd, over, allowUnreg));
+			else { Po::ParsedValues r = Po::parseCommandString(cmd, over, allowUnreg); (void)r; }
+		}
+		else {
+			std::vector<const char*> args;
+			for (size_t i = 0; i != toks.size(); ++i) args.push_back(toks[i].c_str());
+			args.push_back(0);
+			if (keep) *keep = new Po::ParsedValues(Po::parseCommandArray(args.data(), (unsigned)toks.size(), over, allowUnreg));
+			else { Po::ParsedValues r = Po::parseCommandArray(args.data(), (unsigned)toks.size(), over, allowUnreg); (void)r; }
+		}
+	}
+	static void noise(const std::vector<std::string>& toks, const Po::OptionContext& over, bool allowUnreg, bool asString) {
+		try { runLine(toks, over, allowUnreg, asString, 0); }
+		catch (const std::exception&) {}
+	}
+	void pushParsed(PVBox* box, const Po::SharedOptPtr& sp, unsigned sel) {
+		if (sel % 8 == 0) { box->base.add(sp, "v"); return; }
+		const Po::OptionContext* over = 0;
+		if (((sel >> 3) & 1) == 0) {
+			for (ll k = 2; k < C && !over; k += 3) {
+				const Po::OptionContext* x = static_cast<Po::OptionContext*>(cont[(size_t)k]);
+				for (Po::OptionContext::option_iterator it = x->begin(); it != x->end(); ++it) { if (it->get() == sp.get()) over = x; }
+			}
+		}
+		std::unique_ptr<Po::OptionContext> tmp;
+		if (!over) {
+			tmp.reset(new Po::OptionContext("tmp"));
+			Po::OptionGroup g("grp");
+			g.addOption(sp);
+			tmp->add(g);
+			over = tmp.get();
+		}
+		const std::string nm = sp->name();
+		const bool asString = (sel & 2) != 0;
+		std::vector<std::string> one(1);
+		// strict: --no-<name> for this option and up to three others of the context (non-negatable: UnknownOption; negatable: a discarded result)
+		one[0] = "--no-" + nm; noise(one, *over, false, asString);
+		size_t others = 0;
+		for (Po::OptionContext::option_iterator it = over->begin(); it != over->end() && others != 3; ++it) {
+			if (it->get() != sp.get()) { one[0] = "--no-" + (*it)->name(); noise(one, *over, false, !asString); ++others; }
+		}
+		one[0] = "--no-zzz"; noise(one, *over, false, asString);
+		one[0] = "--no-" + nm.substr(0, 1); noise(one, *over, false, asString);     // prefix: unique or ambiguous
+		if (sel & 1) {
+			std::vector<std::string> l;
+			l.push_back("--no-" + nm); l.push_back("--no-zzz"); l.push_back("--zzz=1"); l.push_back("--no-" + nm.substr(0, 1)); l.push_back("--no-" + nm + "=x");
+			noise(l, *over, true, asString);
+		}
+		// the line whose result is kept: mentions the option exactly once
+		std::vector<std::string> line;
+		if (sp->value()->isNegatable() && (sel & 1)) { line.push_back("--no-" + nm); }
+		else if (sel & 4) { line.push_back("--" + nm + "=v"); }
+		else { line.push_back("--" + nm); line.push_back("v"); }
+		Po::ParsedValues* res = 0;
+		try { runLine(line, *over, false, asString, &res); } catch (const std::exception&) { res = 0; }
+		if (res && std::distance(res->begin(), res->end()) == 1 && res->begin()->first.get() == sp.get()) {
+			res->ctx = &dummy;            // the context parsed over may go away before the result does
+			box->kept.push_back(res);
+		}
+		else {
+			integrity = 1;                // the parser did not return exactly the one mentioned option
+			delete res;
+			box->base.add(sp, "v");
 		}
 	}
 	ll idOf(const Po::Option* x) const { for (size_t k = 0; k != raw.size(); ++k) { if (raw[k] == x) return (ll)k; } return -2; }
@@ -467,7 +560,9 @@ struct B {
 				if (okp(i)) {
 					size_t k = raw.size();
 					odead.push_back(0);
-					Po::Option* x = new Po::Option("o" + std::to_string(k), 0, "", new TrackedValue(k));
+					TrackedValue* tv = new TrackedValue(k);
+					if (k % 3 == 1) tv->negatable();       // every third option accepts --no-<name>
+					Po::Option* x = new Po::Option("o" + std::to_string(k), 0, "", tv);
 					raw.push_back(x);
 					*p[(size_t)i] = Po::SharedOptPtr(x);
 				}
@@ -497,7 +592,7 @@ struct B {
 					const Po::SharedOptPtr& sp = *p[(size_t)i];
 					switch (k % 3) {
 						case 0: static_cast<Po::OptionGroup*>(cont[(size_t)k])->addOption(sp); break;
-						case 1: static_cast<Po::ParsedValues*>(cont[(size_t)k])->add(sp, "v"); break;
+						case 1: pushParsed(static_cast<PVBox*>(cont[(size_t)k]), sp, (unsigned)(nops * 5 + i * 3 + k + (ll)raw.size())); break;
 						default: {
 							Po::OptionGroup g("grp");
 							g.addOption(sp);
